@@ -163,6 +163,7 @@ type World struct {
 	events  []Event
 	mgrs    []*allocation.Manager
 	stepNo  int
+	authSleep time.Duration
 	extraClientSocks []*sim.UDPSock
 	curOp   string
 	model   *Model
@@ -301,6 +302,9 @@ func NewWorld(cfg Config, verbose bool) (*World, error) {
 	}
 	if !cfg.NoAuth {
 		sc.AuthHandler = func(ra *turn.RequestAttributes) (string, []byte, bool) {
+			if w.authSleep > 0 {
+				time.Sleep(w.authSleep + 300*time.Microsecond)
+			}
 			for _, u := range Users {
 				if u.Name == ra.Username {
 					return u.Name, ref.LongTermKey(u.Name, ra.Realm, u.Pass), true
@@ -386,4 +390,11 @@ func (w *World) maySleepIn(kind string) bool {
 	}
 
 	return false
+}
+
+func (w *World) callbacksActive() int {
+	w.evMu.Lock()
+	defer w.evMu.Unlock()
+
+	return w.cbActive
 }
